@@ -216,3 +216,20 @@ func blockPos(b *cfg.Block) token.Pos {
 	}
 	return token.NoPos
 }
+
+// ReachableAfterInIteration is ReachableAfter restricted to one iteration of
+// the loops that contain both sites: paths that go round such a loop again
+// (through its head or post block) do not count.
+func (g *Graph) ReachableAfterInIteration(a, b *Site) bool {
+	if a.Block == b.Block && (a.Idx < b.Idx || (a.Idx == b.Idx && a.Ord < b.Ord)) {
+		return true
+	}
+	avoid := g.iterationAvoid(a.Block, b.Block)
+	delete(avoid, a.Block)
+	for _, s := range a.Block.Succs {
+		if s == b.Block || g.Reach(s, b.Block, avoid) {
+			return true
+		}
+	}
+	return false
+}
